@@ -1698,6 +1698,29 @@ class Executor(object):
                         s2.trace.pop()      # constructor field initialisation is not an observable event
             if 'effect' in spec:
                 spec['effect'](self, s2, ev)
+            if 'applies' in spec and not s2.spec:
+                # a higher-order callee (pool.imap(f, items) ...): f is CALLED on the elements.  One generic element is
+                # executed symbolically; the events of that call are recorded as quantified events ("for every element"),
+                # its result and any exception are the callee's business (result objects) and are dropped here.
+                fi_, it_ = spec['applies']
+                fv_ = args[fi_] if fi_ < len(args) else None
+                seqv = args[it_] if it_ < len(args) else None
+                if isinstance(fv_, VFunc) and isinstance(seqv, VSeq):
+                    gi = z3.Int(uid('ap'))
+                    probe = s2.fork()
+                    probe.assume(z3.And(gi >= 0, gi < seqv.length()))
+                    n0_ = len(probe.trace)
+                    seen_ = set()
+                    for s3_, v3_ in self.call_value(probe, fv_, [seqv.elem(gi)], {}, node):
+                        for e3_ in s3_.trace[n0_:]:
+                            if id(e3_) in seen_:
+                                continue
+                            seen_.add(id(e3_))
+                            e3_.quant = (gi, seqv.length(), z3.BoolVal(True))
+                            e3_.ghost = dict(e3_.ghost, applied_by=short)
+                            s2.trace.append(e3_)
+                    self.used_stubs.add('%s(f, items): f is executed once on a generic element; its events are recorded as '
+                                        '"for every element" events' % short)
             outs.append((s2, res))
         for exc in spec.get('raises', tgt.get('opaque_raises', [])):
             s2 = st.fork()
